@@ -172,40 +172,90 @@ class Lengths:
                 return [Form()]
             if last == "box_assume_init_into_vec_unsafe" or last == "from_elem":
                 raise Unknown("vec literal handled by the interpreter")
+            tgt = self.prog.by_norm.get(nm)
+            if tgt is not None and tgt.kind in ("Fn", "AssocFn") and self._depth < 4 and "Vec<u8>" in (tgt.locals[0]["ty"] or ""):
+                # a local helper producing bytes from bytes: interpret its body on the argument forms
+                init = {}
+                for vn, l, pj in tgt.var_places:
+                    if not pj and 1 <= l <= tgt.arg_count and l - 1 < len(e[3]) and re.search(r"Vec<u8>|\[u8\]", tgt.locals[l]["ty"] or ""):
+                        init[vn] = self.value_forms(simp(e[3][l - 1]), env)
+                sub = Lengths(self.prog)
+                sub._depth = self._depth + 1
+                saved = self.cur_fn
+                try:
+                    return sub.emit_forms(tgt, init=init)
+                finally:
+                    self.cur_fn = saved
             raise Unknown("call %s" % nm)
         raise Unknown("expression %s" % expr_str(e)[:80])
 
     # ---------------------------------------------------------- encode interpreter
     def emit(self, fn, init=None, result=None):
-        """Set of forms of the returned byte vector (or of the variable `result`) over
-        all paths of fn. `init`: initial environment {var: [Form]}."""
-        prog = self.prog
+        """Keys of the forms of the returned byte vector (or of the variable `result`)
+        over all paths of fn. `init`: initial environment {var: [Form]}."""
+        return {f.key() for f in self.emit_forms(fn, init, result)}
+
+    def emit_forms(self, fn, init=None, result=None):
         self.cur_fn = fn
+        loops = natural_loops(fn)
+        envs = self._interp(fn, 0, init or {}, set(fn.live_blocks()), loops, stop=None)
+        out = {}
+        key = result or "_0"
+        for env in envs:
+            if key not in env:
+                raise Unknown("returned value of %s is not a tracked byte vector" % short(fn.norm))
+            for f_ in env[key]:
+                out[f_.key()] = f_
+        return list(out.values())
+
+    def _interp(self, fn, start, init, region, loops, stop):
+        """Forward interpretation from block `start` over `region`; returns the environments
+        at `return` blocks (stop=None) or at the blocks in `stop` (after their statements)."""
+        prog = self.prog
         eb = ExprBuilder(prog, fn, user_stop=True)
         ebf = ExprBuilder(prog, fn)
-        live = fn.live_blocks()
-        # back edges are cut (loops are summarised at their for_each/fold call, natural loops unsupported)
-        if natural_loops(fn):
-            raise Unknown("natural loop in %s" % short(fn.norm))
         err_blocks = set()
         for b, t in fn.all_calls():
             d, r, _ = prog.callee_of(t)
             if (d or "").endswith("FromResidual::from_residual"):
                 err_blocks.add(b)
-        states = {0: {self._freeze(init or {})}}
-        order = self._topo(fn)
+        heads = {h: (body, backs) for h, body, backs in loops if h in region and h != start}
+        inner = set()
+        for h, (body, backs) in heads.items():
+            inner |= (body - {h})
+        order = [b for b in self._topo(fn, start) if b in region]
         oset = set(order)
-        finals = set()
-        names = {l: vn for vn, l, pj in fn.var_places if not pj}
+        states = {start: {self._freeze(init)}}
+        finals = []
 
         def pname(place):
             return fn.place_str(place)
 
         for b in order:
+            if b in inner and not any(b == h for h in heads):
+                # blocks of a nested loop body are interpreted by the loop summary
+                if not any(b in body and h in oset and h != start for h, (body, backs) in heads.items()):
+                    pass
             for st in list(states.get(b, ())):
                 env = self._thaw(st)
                 blk = fn.blocks[b]
-                dead = False
+                if b in heads:
+                    # summarise the loop: per-iteration growth of every tracked vector
+                    body, backs = heads[b]
+                    self._loop_summary(fn, b, body, backs, env, loops)
+                    # continue at the loop exit(s): successors of body blocks outside the body
+                    exits = set()
+                    for x in body:
+                        for s_, _l in fn.succs(x):
+                            if s_ not in body and x not in err_blocks:
+                                exits.add(s_)
+                    fr = self._freeze(env)
+                    for s_ in exits:
+                        if s_ in oset:
+                            states.setdefault(s_, set()).add(fr)
+                    continue
+                if any(b in body and b != h for h, (body, backs) in heads.items()):
+                    continue  # inside a summarised loop
                 for s in blk["stmts"]:
                     if s["k"] != "assign":
                         continue
@@ -222,17 +272,17 @@ class Lengths:
                     if rv["k"] == "agg" and rv["agg"] == "array" and "u8" in ty:
                         env[dst] = [Form.const(len(rv["ops"]))]
                 t = blk["term"]
+                if stop is not None and b in stop:
+                    finals.append(env)
+                    continue
                 if b in err_blocks:
                     continue
                 if t["k"] == "call":
+                    self.cur_fn = fn
                     self._call(fn, eb, ebf, b, t, env)
                 if t["k"] == "return":
-                    key = result or "_0"
-                    if key in env:
-                        for f_ in env[key]:
-                            finals.add(f_.key())
-                    else:
-                        raise Unknown("returned value of %s is not a tracked byte vector" % short(fn.norm))
+                    if stop is None:
+                        finals.append(env)
                     continue
                 fr = self._freeze(env)
                 for s_, _lab in fn.succs(b):
@@ -241,6 +291,58 @@ class Lengths:
                         if len(states[s_]) > MAXP:
                             raise Unknown("too many paths in %s" % short(fn.norm))
         return finals
+
+    def _loop_summary(self, fn, head, body, backs, env, loops):
+        """A `for x in <list>` loop: add S(list){per-iteration growth} to every tracked vector
+        the body appends to."""
+        eb = ExprBuilder(self.prog, fn, user_stop=True)
+        ebf = ExprBuilder(self.prog, fn)
+        # the loop must be driven by Iterator::next on an iterator over a list
+        it_expr = None
+        body_entry = None
+        for x in sorted(body):
+            t = fn.blocks[x]["term"]
+            if t["k"] == "switch":
+                e = ebf.operand(t["discr"])
+                if e[0] == "discr" and e[1][0] == "call" and (callee_name(e[1]) or "").split("::")[-1] == "next":
+                    it_expr = e[1][3][0]
+                    some = [tb for v, tb in t["targets"] if v == 1]
+                    body_entry = some[0] if some else t["otherwise"]
+                    break
+        if it_expr is None or body_entry is None:
+            raise Unknown("loop in %s is not a `for` over an iterator" % short(fn.norm))
+        itn = simp(it_expr)
+        if itn[0] == "place" and re.match(r"^\w+$", itn[1]):
+            ds = ebf.var_defs(itn[1])
+            if len(ds) == 1:
+                itn = simp(ds[0])
+        list_name = self._list_name(itn)
+        tracked = list(env.keys())
+        zero = {k: [Form()] for k in tracked}
+        inner_loops = [(h, bd, bk) for h, bd, bk in loops if h != head and h in body]
+        if inner_loops:
+            raise Unknown("nested loops in %s" % short(fn.norm))
+        ends = self._interp(fn, body_entry, zero, set(body) - {head}, [], stop=set(backs))
+        if not ends:
+            raise Unknown("loop body of %s has no path back to its head" % short(fn.norm))
+        items = [vn for vn, l, pj in fn.var_places if not pj and any(d[0] in ("assign", "call") and d[1] in body and "next(" in expr_str(ebf._def_expr(d, 0, (l,)))[:200] and "@Some.0" in expr_str(ebf._def_expr(d, 0, (l,))) for d in fn.defs(l))]
+        for k in tracked:
+            alts = {}
+            for e2 in ends:
+                for f_ in e2.get(k, [Form()]):
+                    key = f_.key()
+                    for it in items:
+                        key = re.sub(r"\b%s\b" % re.escape(it), "item", key)
+                    key = re.sub(r"\(Iterator>::next\(\w+\)\)@Some\.0(\.\*)?", "item", key)
+                    alts[key] = True
+            forms = []
+            for key in alts:
+                if key == "0":
+                    forms.append(Form())
+                else:
+                    forms.append(Form.atom("S(%s){%s}" % (list_name, key)))
+            if any(f_.t for f_ in forms):
+                self._add(env, k, forms)
 
     def _freeze(self, env):
         return tuple(sorted((k, tuple(sorted({tuple(sorted(f.t.items())) for f in v}))) for k, v in env.items()))
@@ -262,7 +364,7 @@ class Lengths:
                 f = f.add(Form.atom(part))
         return f
 
-    def _topo(self, fn):
+    def _topo(self, fn, start=0):
         seen = set()
         out = []
 
@@ -282,7 +384,7 @@ class Lengths:
                     out.append(x)
                     st.pop()
 
-        dfs(0)
+        dfs(start)
         return list(reversed(out))
 
     def _add(self, env, var, forms):
